@@ -169,7 +169,7 @@ func c01Grammar(res *explore.Result, g *gram.Grammar, inputs [][]byte, verbose b
 		}
 		lastLen = len(w)
 		t := ref.Compute(g, an, w, true)
-		c := Case{Placement: impl.Placement, Grammar: gs, Input: string(w)}
+		c := Case{Placement: impl.Placement, Prior: b.MemoBefore, Grammar: gs, Input: string(w)}
 		if anyOver(t) && len(w) > 2 {
 			// infinitely (or hugely) ambiguous on this input: the number of returned trees is a
 			// power tower in the curtailment depth; such pairs are explored for |w| <= 2 only.
